@@ -11,7 +11,9 @@ META = {
                  "interleaving of arrivals and swaps, proved for every program passing the boolean check prog_safe and "
                  "instantiated on the extracted one), (d) a model of the DaisyChain test network; differential correspondence of "
                  "all four against the real code (direct calls of the real wrapper, real DaisyChain lines, real libp2p A-B-C on localhost)",
-    "level": "Full for the tmlibp2p path after fix 7f091a8 (one validator registered before Subscribe, handler swapped atomically): "
+    "level": "Result -> feedback tables (tm/tmconsensus/feedbackmapper.go, regenerated as Gen/Mappers.v): C20_mappers_accept_only_verified - both mappers "
+             "answer FeedbackAccepted only for results that mean the engine verified the message, for every N a handler could return. "
+             "Full for the tmlibp2p path after fix 7f091a8 (one validator registered before Subscribe, handler swapped atomically): "
              "accept_iff_accepted, out_of_range_ignored, wrapper_spec/wrapper_accept, relay_only_if_accepted (every interleaving, "
              "every request list), no_handler_no_relay, swap_is_atomic. Partial for DaisyChain: the test network passes messages "
              "through a node whose handler is nil (known finding daisychain-nil-handler-passthrough); daisy_relay_spec is proved, "
